@@ -36,6 +36,7 @@ BASE = [
     8520335999999998, 8520335999999999,   # 2239-12-31T23:59:59.99999[89]Z
     1615716000000000,           # 2021-03-14T10:00Z: US DST start (02:00 PST -> 03:00 PDT)
     1636275600000000,           # 2021-11-07T09:00Z: US DST end (fold)
+    1636264800000000 + 1800000000,   # 2021-11-07T06:30Z = 01:30 EST, the second reading (fold=1) of 01:30 in New York
     1617463800000000,           # 2021-04-03T15:30Z: Lord Howe DST end (02:00 LHDT -> 01:30 LHST)
     1633188600000000,           # 2021-10-02T15:30Z: Lord Howe DST start
     504900000000000,            # 1986-01-01: Kathmandu moved from +5:30 to +5:45
